@@ -1,2 +1,3 @@
 import SR.Drv.C10
-def main : IO Unit := SR.Drv.runMain [SR.Drv.C10.handle]
+import SR.Drv.C20
+def main : IO Unit := SR.Drv.runMain [SR.Drv.C10.handle, SR.Drv.C20.handle]
